@@ -1,9 +1,14 @@
 (* C35 — push / pull / fetch / clone.  Executable model of
-     go/store/datas/pull/puller.go        Puller.Pull: walk the references of the requested heads (WalkAddrs),
-                                          skip what the sink has, fetch and write the rest in table-file batches
-     go/store/datas/pull/clone.go         clone: copy every table file, then the manifest
+     go/store/datas/pull/puller.go          Puller.Pull + PullChunkTracker: walk the references (WalkAddrs) of the
+                                            requested heads; every batch of addresses is first filtered by
+                                            sink.HasMany — an address the sink already has is neither fetched nor
+                                            expanded; fetched chunks are written to table files and all files are
+                                            added to the sink's manifest at the end
+     go/store/nbs/store.go                  AddTableFilesToManifest: reference check on the added files (C07)
+     go/store/datas/pull/clone.go           clone: copy every table file, then the manifest
      go/libraries/doltcore/env/actions/remotes.go   Push: fast-forward check, PullChunks, then the ref update
-     go/libraries/doltcore/doltdb/doltdb.go         FastForwardWithWorkspaceCheck / SetHead: compare-and-set of the ref
+     go/libraries/doltcore/doltdb/doltdb.go         FastForward / SetHead: compare-and-set of the ref; the new
+                                                    store root may only reference present chunks (refCheck)
    Chunk graphs are C08's (address, references reported by the walker).  All stores live in one
    content-addressed universe [u] (the union of what any party ever wrote): a store is the list of
    addresses it holds.  No proofs here. *)
@@ -16,11 +21,21 @@ Definition store := list addr.                       (* addresses present *)
 Definition refmap := list (N * addr).                (* ref name -> head *)
 
 Definition has (s : store) (h : addr) : bool := memb h s.
+Definition absent (s : store) (h : addr) : bool := negb (has s h).
 
-(* the chunks a pull of [heads] must bring: the closure of the heads in the universe, minus what the sink has *)
+(* the graph as the puller sees it: references the sink already has are pruned by HasMany *)
+Definition prune (u : graph) (sink : store) : graph :=
+  map (fun p => (fst p, filter (absent sink) (snd p))) u.
+
+(* the chunks a pull of [heads] fetches: HasMany-pruned walk from the heads the sink lacks *)
+Definition pull_need (u : graph) (sink : store) (heads : list addr) : option (list addr) :=
+  mark (prune u sink) (filter (absent sink) heads).
+
+(* the unpruned reference: closure of the heads minus what the sink has (what a pull would have to bring
+   if nothing could be assumed about the sink) *)
 Definition missing (u : graph) (sink : store) (heads : list addr) : option (list addr) :=
   match mark u heads with
-  | Some r => Some (filter (fun h => negb (has sink h)) r)
+  | Some r => Some (filter (absent sink) r)
   | None => None
   end.
 
@@ -37,11 +52,17 @@ Definition opt_eqb (a b : option addr) : bool :=
 
 Record remote := { r_store : store; r_refs : refmap }.
 
-(* steps of a transfer into [d]; any interleaving of any number of transfers is a list of these *)
+(* steps applied to a destination [d]; any interleaving of any number of transfers, interrupted anywhere,
+   is a list of these *)
 Inductive tstep :=
-| TCopy (batch : list addr)                       (* a table file with any subset of chunks, in any order *)
+| TAdd (batch : list addr)        (* AddTableFilesToManifest of uploaded files holding these chunks, any order *)
 | TSetRef (n : N) (expected : option addr) (new : addr) (force : bool).
-                                                  (* ref update: compare-and-set; non-forced = fast-forward only *)
+                                  (* ref update: compare-and-set; non-forced = fast-forward only *)
+
+(* the reference check made when table files are added: every reference of every added chunk is in the
+   added files or already in the store *)
+Definition add_ok (u : graph) (s : store) (batch : list addr) : bool :=
+  forallb (fun h => forallb (has (batch ++ s)) (refs u h)) batch.
 
 (* is [old] an ancestor-or-self of [new] (fast-forward)?  closure of new contains old *)
 Definition is_ff (u : graph) (old : option addr) (new : addr) : bool :=
@@ -50,28 +71,36 @@ Definition is_ff (u : graph) (old : option addr) (new : addr) : bool :=
   | Some o => match mark u [new] with Some r => memb o r | None => false end
   end.
 
-(* the data check made before a ref may move (Puller finished: everything reachable from new is at the sink) *)
-Definition data_complete (u : graph) (s : store) (new : addr) : bool :=
-  match mark u [new] with Some r => forallb (has s) r | None => false end.
+Definition set_ok (u : graph) (d : remote) (n : N) (expected : option addr) (new : addr) (force : bool) : bool :=
+  opt_eqb (get_ref (r_refs d) n) expected          (* compare-and-set on the old head *)
+  && has (r_store d) new                           (* refCheck: the new head must be present *)
+  && (force || is_ff u (get_ref (r_refs d) n) new).
 
 Definition tstep_run (u : graph) (d : remote) (t : tstep) : remote :=
   match t with
-  | TCopy batch => {| r_store := batch ++ r_store d; r_refs := r_refs d |}
+  | TAdd batch =>
+      if add_ok u (r_store d) batch then {| r_store := batch ++ r_store d; r_refs := r_refs d |} else d
   | TSetRef n expected new force =>
-      if opt_eqb (get_ref (r_refs d) n) expected
-         && data_complete u (r_store d) new
-         && (force || is_ff u (get_ref (r_refs d) n) new)
+      if set_ok u d n expected new force
       then {| r_store := r_store d; r_refs := set_ref (r_refs d) n new |}
       else d
   end.
 
 Definition transfer (u : graph) (d : remote) (ts : list tstep) : remote := fold_left (tstep_run u) ts d.
 
-(* did the step move the ref? *)
 Definition succeeded (u : graph) (d : remote) (t : tstep) : bool :=
   match t with
-  | TSetRef n expected new force =>
-      opt_eqb (get_ref (r_refs d) n) expected && data_complete u (r_store d) new
-      && (force || is_ff u (get_ref (r_refs d) n) new)
-  | TCopy _ => true
+  | TSetRef n expected new force => set_ok u d n expected new force
+  | TAdd batch => add_ok u (r_store d) batch
+  end.
+
+(* executable statement "the whole closure of [a] is at the store", used on implementation states *)
+Definition data_complete (u : graph) (s : store) (a : addr) : bool :=
+  match mark u [a] with Some r => forallb (has s) r | None => false end.
+
+(* a complete push / fetch of one head as the implementation performs it *)
+Definition push (u : graph) (d : remote) (n : N) (new : addr) (force : bool) : remote :=
+  match pull_need u (r_store d) [new] with
+  | Some need => transfer u d [TAdd need; TSetRef n (get_ref (r_refs d) n) new force]
+  | None => d
   end.
